@@ -75,3 +75,122 @@ func (p *proc) BadLoopDoubleRelease() {
 		p.mu.Unlock()
 	}
 }
+
+// ---- the same shapes with the events in helpers, closures and deferred calls
+
+func (p *proc) release() { <-p.running }
+
+func (p *proc) peekOrRelease() (int, bool) {
+	p.mu.Lock()
+	defer p.mu.Unlock()
+	v, ok := p.Peek()
+	if !ok {
+		p.release()
+	}
+	return v, ok
+}
+
+func (p *proc) peekUnlocked() (int, bool) {
+	p.mu.Lock()
+	v, ok := p.Peek()
+	p.mu.Unlock()
+	return v, ok
+}
+
+func (p *proc) withLock(fn func()) {
+	p.mu.Lock()
+	defer p.mu.Unlock()
+	fn()
+}
+
+func (p *proc) GoodLoopHelpers() {
+	for {
+		_, ok := p.peekOrRelease()
+		if !ok {
+			return
+		}
+		select {
+		case <-p.stop:
+			p.release()
+			return
+		default:
+		}
+	}
+}
+
+func (p *proc) GoodLoopFlagDefer() {
+	released := false
+	defer func() {
+		if !released {
+			<-p.running
+		}
+	}()
+	for {
+		p.mu.Lock()
+		_, ok := p.Peek()
+		if !ok {
+			<-p.running
+			released = true
+			p.mu.Unlock()
+			return
+		}
+		p.mu.Unlock()
+		select {
+		case <-p.stop:
+			return
+		default:
+		}
+	}
+}
+
+func (p *proc) GoodLoopClosure() {
+	for {
+		var ok bool
+		p.withLock(func() {
+			_, ok = p.Peek()
+			if !ok {
+				<-p.running
+			}
+		})
+		if ok == false {
+			return
+		}
+	}
+}
+
+func (p *proc) BadLoopHelperUnlockFirst() {
+	for {
+		_, ok := p.peekUnlocked()
+		if !ok {
+			p.release()
+			return
+		}
+	}
+}
+
+func (p *proc) BadLoopHelperForgetsRelease() {
+	for {
+		_, ok := p.peekOrRelease()
+		if !ok {
+			return
+		}
+		select {
+		case <-p.stop:
+			return
+		default:
+		}
+	}
+}
+
+func (p *proc) BadLoopClosureReleaseOutside() {
+	for {
+		var ok bool
+		p.withLock(func() {
+			_, ok = p.Peek()
+		})
+		if !ok {
+			<-p.running
+			return
+		}
+	}
+}
